@@ -116,6 +116,20 @@ CONTRACTS = [
                             "inv_done": "my_id == k and not s.switched", "ghost_inv": "k <= s.gen and implies(s.term, k < s.gen)"}},
     ),
     OpContract(
+        # no fallback given ("... or fails"): the sequence that takes over is throw(Exception("Timeout")), through its callee contract
+        name="timeout/relative/no-fallback", props=["C17"], file=OPS + "_timeout.py", func="timeout_",
+        call="timeout_(duetime, None, scheduler)(source)", params={"duetime": "nat", "absolute": "const:False"}, scheduler="scheduler",
+        sources=("source", "other"),
+        spec="specs.c17:timeout_failing",
+        cells={"switched": "cell:bool", "_id": "cell:int", "timer.current": "optdisp"},
+        inv="switched[0] == s.switched and _id[0] == s.gen and s.gen >= 0 and timer.current is not None",
+        inv_done="_id[0] == s.gen", live="not s.term and not s.switched",
+        timers={"first": {"created_in": "subscribe", "spec": "on_fire", "id": "s.gen", "inv": "my_id == k",
+                          "inv_done": "my_id == k and not s.switched", "ghost_inv": "k <= s.gen and implies(s.term, k < s.gen)"},
+                "rearmed": {"created_in": "source.on_next", "spec": "on_fire", "id": "s.gen", "inv": "my_id == k",
+                            "inv_done": "my_id == k and not s.switched", "ghost_inv": "k <= s.gen and implies(s.term, k < s.gen)"}},
+    ),
+    OpContract(
         name="timeout/absolute", props=["C17"], file=OPS + "_timeout.py", func="timeout_",
         call="timeout_(duetime, other, scheduler)(source)", params={"duetime": "datetime", "absolute": "const:True"}, scheduler="scheduler",
         sources=("source", "other"),
